@@ -25,6 +25,19 @@ def tfl():
   return _state["tf"], _state["tfl"]
 
 
+def zero_bound(rng, omin, omax, p=0.3):
+  """With probability p moves a configured bound pair so that one bound is exactly
+  0.0 (falsy-but-set: `if output_max:` instead of `is not None` drops it)."""
+  if (omin is None and omax is None) or rng.random() >= p:
+    return omin, omax
+  if omax is None:
+    return 0.0, None
+  if omin is None:
+    return None, 0.0
+  w = omax - omin
+  return (0.0, w) if rng.random() < 0.5 else (-w, 0.0)
+
+
 def dy(rng, lo=-8.0, hi=8.0, denom=8):
   """Random small dyadic rational in [lo, hi] (multiple of 1/denom)."""
   return rng.randint(int(lo * denom), int(hi * denom)) / float(denom)
